@@ -28,6 +28,10 @@ type C07Case struct {
 	// DisA / DisB: positions of disabled genes in a and b (the distance counts genes by innovation number, enabled or not)
 	DisA []int `json:"disabled_a,omitempty"`
 	DisB []int `json:"disabled_b,omitempty"`
+	// AltA / AltB: positions of genes that join other nodes (and carry the recurrence flag) than the gene of the same
+	// innovation number on the other side does: genes are counted by innovation number, whatever they connect
+	AltA []int `json:"other_link_a,omitempty"`
+	AltB []int `json:"other_link_b,omitempty"`
 }
 
 func genMutNum() *rapid.Generator[float64] {
@@ -143,6 +147,18 @@ func GenC07() *rapid.Generator[C07Case] {
 				}
 			}
 		}
+		if rapid.IntRange(0, 3).Draw(t, "other links") == 0 {
+			for i := range c.A {
+				if rapid.IntRange(0, 3).Draw(t, "other link a") == 0 {
+					c.AltA = append(c.AltA, i)
+				}
+			}
+			for i := range c.B {
+				if rapid.IntRange(0, 3).Draw(t, "other link b") == 0 {
+					c.AltB = append(c.AltB, i)
+				}
+			}
+		}
 		c.Thr = rapid.OneOf(rapid.Just(0.0), rapid.Float64Range(0.01, 5), rapid.Float64Range(1, 100)).Draw(t, "threshold")
 		return c
 	})
@@ -150,12 +166,20 @@ func GenC07() *rapid.Generator[C07Case] {
 
 // compatGenome builds a well-formed genome whose gene list carries the given innovation / mutation numbers: gene
 // with innovation v joins the input node 1 with the hidden node 100+v, so equal innovation numbers denote equal links.
-func compatGenome(id int, list []innovMut) *genetics.Genome {
+func compatGenome(id int, list []innovMut, alt ...int) *genetics.Genome {
 	s := GenomeSpec{Id: id, Traits: []TraitSpec{{Id: 1, Params: make([]float64, neat.NumTraitParams)}}}
 	s.Nodes = append(s.Nodes, NodeSpec{Id: 1, Role: roleInput, Act: 17, Trait: 1}, NodeSpec{Id: 2, Role: roleOutput, Act: 4, Trait: 1})
-	for _, x := range list {
+	other := map[int]bool{}
+	for _, i := range alt {
+		other[i] = true
+	}
+	for i, x := range list {
 		s.Nodes = append(s.Nodes, NodeSpec{Id: 100 + int(x.Innov), Role: roleHidden, Act: 4, Trait: 1})
-		s.Genes = append(s.Genes, GeneSpec{In: 1, Out: 100 + int(x.Innov), W: x.Mut, Innov: x.Innov, Mut: x.Mut, En: true, Trait: 1})
+		g := GeneSpec{In: 1, Out: 100 + int(x.Innov), W: x.Mut, Innov: x.Innov, Mut: x.Mut, En: true, Trait: 1}
+		if other[i] { // the same innovation number on another link: from the hidden node to the output, flagged recurrent
+			g.In, g.Out, g.Rec = 100+int(x.Innov), 2, true
+		}
+		s.Genes = append(s.Genes, g)
 	}
 	return s.Build()
 }
@@ -174,7 +198,10 @@ func checkDistance(name string, got, ref float64) error {
 }
 
 func CheckC07(c C07Case, rec *Rec) error {
-	a, b := compatGenome(c.IdA, c.A), compatGenome(c.IdB, c.B)
+	a, b := compatGenome(c.IdA, c.A, c.AltA...), compatGenome(c.IdB, c.B, c.AltB...)
+	if len(c.AltA)+len(c.AltB) > 0 {
+		rec.Class("equal innovation numbers on different links")
+	}
 	bothDisabled := map[int64]int{}
 	for _, i := range c.DisA {
 		if i < len(a.Genes) {
